@@ -64,6 +64,12 @@ type KnownFinding struct {
 	Commit   string                 `json:"commit,omitempty"`
 }
 
+var registry = map[string]func(*Run){}
+
+// Register makes a property check available to cmd/check (call from init())
+func Register(id string, fn func(*Run)) { registry[id] = fn }
+func Lookup(id string) func(*Run)       { return registry[id] }
+
 func NewRun(id string, args []string) *Run {
 	r := &Run{
 		ID:        id,
@@ -206,7 +212,7 @@ func (r *Run) Violation(key map[string]interface{}, what string, replay interfac
 	}
 	b, _ := json.MarshalIndent(rec, "", " ")
 	sum := sha1.Sum([]byte(canon(key) + what))
-	dir := filepath.Join(r.Verif, "replay", r.ID)
+	dir := filepath.Join(envOr("VERIF_REPLAY_DIR", filepath.Join(r.Verif, "replay")), r.ID)
 	os.MkdirAll(dir, 0755)
 	path := filepath.Join(dir, hex.EncodeToString(sum[:8])+".json")
 	os.WriteFile(path, b, 0644)
@@ -306,7 +312,7 @@ func (r *Run) Finish() int {
 	if len(r.infraErrors) > 0 {
 		cov["infra_errors"] = r.infraErrors
 	}
-	var kh []string
+	kh := []string{}
 	for k := range r.knownHits {
 		kh = append(kh, k)
 	}
@@ -324,7 +330,7 @@ func (r *Run) Finish() int {
 	}
 	if r.Replay == "" {
 		b, _ := json.MarshalIndent(ev, "", " ")
-		dir := filepath.Join(r.Verif, "evidence")
+		dir := envOr("VERIF_EVIDENCE_DIR", filepath.Join(r.Verif, "evidence"))
 		os.MkdirAll(dir, 0755)
 		if err := os.WriteFile(filepath.Join(dir, r.ID+".json"), b, 0644); err != nil {
 			fmt.Fprintln(os.Stderr, "INFRA: cannot write evidence:", err)
